@@ -30,6 +30,30 @@ func init() {
 		}
 		return sgn(version.Compare(x, y))
 	}
+	// vjsonvalue text: the parsed Version handed to encoding/json BY VALUE (as Parse returns it), inside a struct and a map too,
+	// and read back: "marshalled text ... and parsing that rendering yields the same value again"
+	ops["vjsonvalue"] = func(a []string) string {
+		v, err := version.Parse(arg(a, 0))
+		if err != nil {
+			return "rejected"
+		}
+		b1, e1 := json.Marshal(v)
+		b2, e2 := json.Marshal(struct{ V version.Version }{v})
+		b3, e3 := json.Marshal(map[string]version.Version{"k": v})
+		if e1 != nil || e2 != nil || e3 != nil {
+			return "marshal-error"
+		}
+		var w1 version.Version
+		var w2 struct{ V version.Version }
+		var w3 map[string]version.Version
+		if json.Unmarshal(b1, &w1) != nil || json.Unmarshal(b2, &w2) != nil || json.Unmarshal(b3, &w3) != nil {
+			return "unmarshal-error " + hx(string(b1))
+		}
+		if w1 != v || w2.V != v || w3["k"] != v {
+			return "differs"
+		}
+		return "same " + hx(string(b1))
+	}
 	ops["vless"] = func(a []string) string {
 		return showBool(version.Slice{mkv(a, 0), mkv(a, 3)}.Less(0, 1))
 	}
